@@ -160,3 +160,42 @@ func c11ResumeWakeup(rep *explore.Report) {
 		}
 	}
 }
+
+// c11PauseDuringReconcile: the user pauses the set while a reconcile is in flight. The edit is what makes the
+// reconcile's status write conflict; the controller then re-reads the set (which now says paused) to retry. From that
+// read on it knows, and must not write for the set any more.
+func c11PauseDuringReconcile(rep *explore.Report) {
+	w := world.New()
+	seeds := append(searchSeeds(c02Grids()[:1]), c09ExtraSeeds(false)...)
+	key := world.NS + "/web"
+	var n int64
+	for _, sd := range seeds {
+		w.Lag = 0
+		w.Load(sd.State.Clone())
+		base := w.Reconcile(key, nil)
+		for _, c := range base.Calls {
+			if !(c.Verb == "update" && c.Resource == "statefulsets") {
+				continue
+			}
+			n++
+			w.Load(sd.State.Clone())
+			rec := w.Reconcile(key, world.FaultPlan{c.ID: world.FConflictPause})
+			rep.AddStates(1, 1)
+			rep.Count(sha16(sd.Label+c.ID), true, "pause lands during the reconcile: "+explore.OutcomeSig(rec))
+			seen := false
+			for _, x := range rec.Calls {
+				if x.Fault == world.FConflictPause {
+					seen = true
+					continue
+				}
+				if seen && x.IsWrite() {
+					rep.Violation("C11", "write-after-pause-was-read", fmt.Sprintf("%s: %s conflicted because the set was paused meanwhile; after re-reading the (now paused) set the reconcile still issued %s", sd.Label, c.ID, x.ID), func() interface{} {
+						return explore.SnapshotReplay{Kind: "snapshot", Label: sd.Label, Key: key, State: sd.State, Faults: world.FaultPlan{c.ID: world.FConflictPause}, Calls: explore.CallStrings(rec)}
+					})
+					break
+				}
+			}
+		}
+	}
+	rep.Extra["pause_during_reconcile_cases"] = n
+}
